@@ -65,7 +65,7 @@ package keeper
 
 // the per-block loop over the vote records
 //@ func (Keeper).HandleVoteInfos
-//@ property C14 C13
+//@ property C14 C13 C19
 //@ requires fraction: 0 < st.locking.Params.SlashFractionDowntime && st.locking.Params.SlashFractionDowntime < 1000000000000000000
 //@ requires window: st.locking.Params.SignedBlocksWindow >= 1
 //@ requires counters_all: forallb(a, 0 <= st.locking.Validators[a].SigningInfo.Missed && st.locking.Validators[a].SigningInfo.Missed <= st.locking.Validators[a].SigningInfo.Offset && st.locking.Validators[a].SigningInfo.Offset < 9223372036854775807)
@@ -130,7 +130,7 @@ package keeper
 //@ pure-iface cosmossdk.io/core/comet.BlockInfo
 //@ pure-iface cosmossdk.io/core/comet.EvidenceList
 //@ func (Keeper).HandleEvidences
-//@ property C14
+//@ property C14 C19
 //@ requires fraction: 0 < st.locking.Params.SlashFractionDoubleSign && st.locking.Params.SlashFractionDoubleSign < 1000000000000000000
 //@ requires tombstone_powerless: forallb(a, st.locking.Validators[a].Status == 3 ==> st.locking.Validators[a].Power == 0)
 //@ ensures tombstone_absorbing: err == nil ==> forallb(a, old(has(st.locking.Validators, a)) && old(st.locking.Validators[a].Status) == 3 ==> has(st.locking.Validators, a) && st.locking.Validators[a] == old(st.locking.Validators[a]))
@@ -228,7 +228,7 @@ package keeper
 // the sweep: every entry with time <= block time is removed from the unlock queue and its unlocks are appended to the
 // execution queue, entry by entry in increasing time order, each exactly once (time stamps are ns, |t| < 10^30)
 //@ func (Keeper).DequeueMatureUnlocks
-//@ property C15 C11
+//@ property C15 C11 C19
 //@ let q0 = old(st.locking.EthTxQueue.Unlocks)
 //@ let q1 = st.locking.EthTxQueue.Unlocks
 //@ let tmin = (0 - 1000000000000000000000000000000)
